@@ -230,6 +230,13 @@ func subRandom() mon.Sub {
 				if c.Rng.Intn(6) == 0 {
 					op = wops.Op{Kind: wops.Flush}
 				}
+				if c.Rng.Intn(8) == 0 {
+					// bring the buffered byte count exactly onto a header-reservation threshold
+					op = wops.Op{Kind: []int{wops.Write, wops.ReadFrom, wops.Grow}[c.Rng.Intn(3)], Sel: 8 + c.Rng.Intn(wops.NSelAll-8)}
+					if cfg.N < 60000 && op.Sel >= 12 && c.Rng.Intn(4) != 0 {
+						op.Sel = 8 + c.Rng.Intn(4)
+					}
+				}
 				ops = append(ops, op)
 			}
 			ops = append(ops, wops.Op{Kind: wops.Flush})
